@@ -134,6 +134,11 @@ func TestC10_Paths(t *testing.T) {
 		}
 		hard := func(k string) bool { return !readable(k) && k != "missing" && k != "empty" }
 		labels := []string{"paths", "main:" + mk, "notebook:" + pk}
+		if both.err == nil {
+			labels = append(labels, "loaded")
+		} else {
+			labels = append(labels, "rejected")
+		}
 		rec.Case(hard(mk) || hard(pk), map[string]any{"main_kind": mk, "notebook_kind": pk}, labels...)
 	})
 }
